@@ -45,6 +45,19 @@ def core_part(c, pid="P1", name="Pno"):
             p = ev[5] if len(ev) > 5 else pi
             objs.append(M.note(nid, s, e, p, voice, staff, q, kind="note" if kind == "n" else "unpitched", **kw))
             pi += 1
+    by_i = {}
+    for o in objs:
+        if o["k"] in ("note", "rest", "unpitched"):
+            by_i[int(o["id"][len(pid) + 1:])] = o
+    for i, j in c.get("ties", []):
+        by_i[i]["tie"] = by_i[j]["id"]
+    for j, n, gtype in c.get("grace", []):
+        main = by_i[j]
+        for k in range(n):
+            g = M.note("%sg%d_%d" % (pid, j, k), main["s"], main["s"], 3 + k, main["voice"], main["staff"], q,
+                       kind="grace", gtype=gtype)
+            g["next"] = "%sg%d_%d" % (pid, j, k + 1) if k + 1 < n else main["id"]
+            objs.insert(objs.index(main), g)
     for x in c.get("x", []):
         objs.append(dict(x))
     spec = {"id": pid, "name": name, "divs": q, "objs": objs}
@@ -95,3 +108,137 @@ def stride(gen, B, r):
             if i % B == r:
                 yield c
     return it
+
+
+# ---------------------------------------------------------------------------------------------
+# B: ties, grace runs, unpitched
+
+
+def _chains(meas, kmax=3, durs=(1, 2)):
+    """contiguous runs of 2..kmax spans, each span inside one measure"""
+    def inside(s, e):
+        return any(lo <= s and e <= hi for lo, hi in meas)
+    total = meas[-1][1]
+    out = []
+
+    def rec(ch):
+        if len(ch) >= 2:
+            out.append(list(ch))
+        if len(ch) == kmax:
+            return
+        s = ch[-1][1]
+        for d in durs:
+            if s + d <= total and inside(s, s + d):
+                rec(ch + [(s, s + d)])
+
+    for s in range(0, total):
+        for d in durs:
+            if inside(s, s + d):
+                rec([(s, s + d)])
+    return out
+
+
+def gen_B_ties(extra):
+    """chains of 2-3 contiguous notes of one pitch over three 1/4 measures (ties over one and two
+    barlines), every assignment of voices {1,2}, every non-empty subset of tie links; `extra`: also
+    one more event anywhere (another pitch, the same pitch untied, or a rest; voice 1 or 2)"""
+    meas = [(0, 2), (2, 4), (4, 6)]
+    alpha = [None]
+    if extra:
+        alpha = []
+        for (s, e) in [x for lo, hi in meas for x in spans(lo, hi, (1, 2))]:
+            for v in (1, 2):
+                for k in ("o", "s", "r"):
+                    alpha.append((k, s, e, v))
+    for ch in _chains(meas):
+        k = len(ch)
+        for voices in product((1, 2), repeat=k):
+            for flags in product((0, 1), repeat=k - 1):
+                if not any(flags):
+                    continue
+                for x in alpha:
+                    ev = [["n", s, e, v, v, 0] for (s, e), v in zip(ch, voices)]
+                    ties = [[i, i + 1] for i, f in enumerate(flags) if f]
+                    if x is not None:
+                        kind, s, e, v = x
+                        if kind == "r":
+                            ev.append(["r", s, e, v, v])
+                        else:
+                            ev.append(["n", s, e, v, v, 1 if kind == "o" else 0])
+                    yield {"sp": "B-ties", "m": [list(m) for m in meas], "ts": [[0, 1, 4]], "ev": ev, "ties": ties}
+
+
+def gen_B_chordties():
+    """two simultaneous chains (a chord tied to a chord) in one voice over a barline; the second chain's
+    first or second note may be one unit longer/shorter (unequal chord: the longer note is moved)"""
+    meas = [(0, 4), (4, 8)]
+    for (a, b, c) in [(2, 4, 6), (3, 4, 5), (0, 4, 8), (2, 4, 5)]:
+        for f0 in (0, 1):
+            for f1 in (0, 1):
+                if not (f0 or f1):
+                    continue
+                for v2 in (1, 2):
+                    for d0, d1 in ((0, 0), (1, 0), (0, -1)):
+                        # chain 0: (a,b)-(b,c) pitch 0 voice 1; chain 1: (a+d0,b)-(b,c+d1) pitch 1 voice v2
+                        if a + d0 >= b or c + d1 <= b:
+                            continue
+                        ev = [["n", a, b, 1, 1, 0], ["n", b, c, 1, 1, 0], ["n", a + d0, b, v2, 1, 1], ["n", b, c + d1, v2, 1, 1]]
+                        ties = ([[0, 1]] if f0 else []) + ([[2, 3]] if f1 else [])
+                        yield {"sp": "B-chordties", "m": [list(m) for m in meas], "ev": ev, "ties": ties}
+
+
+def gen_B_grace(double):
+    """cores of 1-2 notes in one 2/4 measure (span x voice{1,2}, staff = voice); a grace run of length
+    1-2 (plain / slashed) before one note (double=False) or before both notes (double=True)"""
+    meas = [(0, 4)]
+    alpha = [["n", s, e, v, v] for (s, e) in spans(0, 4) for v in (1, 2)]
+    runs = [(1, "grace"), (1, "acciaccatura"), (2, "grace"), (2, "acciaccatura")]
+    for n in (1, 2):
+        for comb in combinations(alpha, n):
+            ev = [list(x) for x in comb]
+            if not double:
+                for j in range(n):
+                    for r in runs:
+                        c = {"sp": "B-grace", "m": [[0, 4]], "ev": ev, "grace": [[j, r[0], r[1]]]}
+                        if grace_ok(c):
+                            yield c
+            elif n == 2:
+                for r0 in runs:
+                    for r1 in runs:
+                        c = {"sp": "B-grace2", "m": [[0, 4]], "ev": ev, "grace": [[0, r0[0], r0[1]], [1, r1[0], r1[1]]]}
+                        if grace_ok(c):
+                            yield c
+
+
+def gen_A_kinds(kinds, nosym=False, name="A-kinds"):
+    alpha = _alphabet([(0, 4)], kinds=kinds, staff_is_voice=True)
+    for n in (1, 2):
+        for comb in combinations(alpha, n):
+            c = {"sp": name, "m": [[0, 4]], "ev": [list(x) for x in comb]}
+            if nosym:
+                c["nosym"] = True
+            yield c
+
+
+def grace_ok(case):
+    """a grace run is expressible only if its main note stays in the voice and is written first among
+    the notes of its voice at that onset (the exporter writes the highest pitch first)"""
+    from . import ir
+    spec = expand(case)
+    for p in M.iter_parts(spec):
+        mv = M.moved_ids(p)
+        notes = {o["id"]: o for o in p["objs"] if o["k"] in ("note", "grace", "unpitched", "rest")}
+        for o in p["objs"]:
+            if o["k"] == "grace" and o.get("next") in notes and notes[o["next"]]["k"] != "grace":
+                m = notes[o["next"]]
+                if m["id"] in mv:
+                    return False
+                for x in notes.values():
+                    if x is m or x["k"] == "grace" or x["id"] in mv:
+                        continue
+                    if x["voice"] == m["voice"] and x["s"] == m["s"]:
+                        if x["k"] != "note" or m["k"] != "note":
+                            return False
+                        if ir.midi_pitch(x["step"], x.get("alter"), x["oct"]) >= ir.midi_pitch(m["step"], m.get("alter"), m["oct"]):
+                            return False
+    return True
